@@ -178,11 +178,21 @@ def payload_faults(seed):
             continue
         n = len(v.raw)
         pos = sorted(set(int(i * (n - 1) / 15) for i in range(16)) | set(range(min(n, 6)))) if n > 1 else ([0] if n else [])
+        dense = seed.roles.get(oid, "").startswith(DENSE_ROLES) and b"Filter" not in v.dict
         for p in pos:
             yield ["flip", oid, p]
         for mask in (0x10, 0x01, 0x40, 0x80):
             for p in pos:
                 yield ["flip", oid, p, mask]
+        if dense:
+            # payloads that pdfminer parses as a binary or program format of their own: faults at every byte
+            for p in range(n):
+                if p not in pos:
+                    yield ["flip", oid, p]
+                    yield ["flip", oid, p, 0x01]
+            for p in range(0, n, 3):
+                if p not in pos:
+                    yield ["cut", oid, p]
         for p in pos:
             yield ["cut", oid, p]
         for how in ("+1", "-1", "0", "huge"):
@@ -494,6 +504,7 @@ def kind_of(f):
 
 
 # -------------------------------------------------------------------------------- execution
+DENSE_ROLES = ("FontFile", "JBIG2Globals", "Image:JBIG2", "Image:CCITT", "ToUnicode", "CMapStream")
 IMAGE_SEEDS = ("images", "forms-images", "filters")
 
 
